@@ -626,6 +626,129 @@ func (x *diagCtx) selections(typeName string, ss *graphql.SelectionSet, d *diagn
 	}
 }
 
+// execDisagreements compares the executable schema with the merged
+// introspection schema: objects, fields, result types, arguments, input
+// objects (through arguments, recursively), enums and unions.
+func execDisagreements(sw *federation.SchemaWithFederationInfo, merged *schemaDef) []string {
+	var out []string
+	types := map[graphql.Type]string{}
+	if sw.Schema.Query != nil {
+		_ = federation.CollectTypes(sw.Schema.Query, types)
+	}
+	if sw.Schema.Mutation != nil {
+		_ = federation.CollectTypes(sw.Schema.Mutation, types)
+	}
+	seenInput := map[string]bool{}
+	var visitInput func(where string, t graphql.Type)
+	visitInput = func(where string, t graphql.Type) {
+		switch x := t.(type) {
+		case *graphql.NonNull:
+			visitInput(where, x.Type)
+		case *graphql.List:
+			visitInput(where, x.Type)
+		case *graphql.Enum:
+			md := merged.Types[x.Type]
+			if md == nil || md.Kind != "ENUM" {
+				out = append(out, fmt.Sprintf("%s: enum %s not an enum of the merged introspection schema", where, x.Type))
+				return
+			}
+			a, b := append([]string(nil), x.Values...), append([]string(nil), md.EnumValues...)
+			sort.Strings(a)
+			sort.Strings(b)
+			if fmt.Sprint(a) != fmt.Sprint(b) {
+				out = append(out, fmt.Sprintf("enum %s: executable %v, introspection %v", x.Type, a, b))
+			}
+		case *graphql.InputObject:
+			if seenInput[x.Name] {
+				return
+			}
+			seenInput[x.Name] = true
+			md := merged.Types[x.Name]
+			if md == nil || md.Kind != "INPUT_OBJECT" {
+				out = append(out, fmt.Sprintf("%s: input object %s not in the merged introspection schema", where, x.Name))
+				return
+			}
+			for _, mf := range md.InputFields {
+				ft, ok := x.InputFields[mf.Name]
+				if !ok {
+					out = append(out, fmt.Sprintf("%s.%s: only in the introspection schema", x.Name, mf.Name))
+					continue
+				}
+				if ft.String() != mf.Type.String() {
+					out = append(out, fmt.Sprintf("%s.%s: executable %s, introspection %s", x.Name, mf.Name, ft, mf.Type))
+				}
+				visitInput(x.Name+"."+mf.Name, ft)
+			}
+			for n := range x.InputFields {
+				if md.inputField(n) == nil {
+					out = append(out, fmt.Sprintf("%s.%s: only in the executable schema", x.Name, n))
+				}
+			}
+		}
+	}
+	for t := range types {
+		switch x := t.(type) {
+		case *graphql.Object:
+			md := merged.Types[x.Name]
+			if md == nil || md.Kind != "OBJECT" {
+				out = append(out, fmt.Sprintf("object %s not in the merged introspection schema", x.Name))
+				continue
+			}
+			for _, mf := range md.Fields {
+				f, ok := x.Fields[mf.Name]
+				if !ok {
+					out = append(out, fmt.Sprintf("%s.%s: only in the introspection schema", x.Name, mf.Name))
+					continue
+				}
+				if f.Type.String() != mf.Type.String() {
+					out = append(out, fmt.Sprintf("%s.%s: result executable %s, introspection %s", x.Name, mf.Name, f.Type, mf.Type))
+				}
+				for _, ma := range mf.Args {
+					at, ok := f.Args[ma.Name]
+					if !ok {
+						out = append(out, fmt.Sprintf("%s.%s(%s): only in the introspection schema", x.Name, mf.Name, ma.Name))
+						continue
+					}
+					if at.String() != ma.Type.String() {
+						out = append(out, fmt.Sprintf("%s.%s(%s): executable %s, introspection %s", x.Name, mf.Name, ma.Name, at, ma.Type))
+					}
+					visitInput(x.Name+"."+mf.Name+"("+ma.Name+")", at)
+				}
+				for n := range f.Args {
+					if mf.arg(n) == nil {
+						out = append(out, fmt.Sprintf("%s.%s(%s): only in the executable schema", x.Name, mf.Name, n))
+					}
+				}
+			}
+			for n := range x.Fields {
+				if md.field(n) == nil {
+					out = append(out, fmt.Sprintf("%s.%s: only in the executable schema", x.Name, n))
+				}
+			}
+		case *graphql.Union:
+			md := merged.Types[x.Name]
+			if md == nil || md.Kind != "UNION" {
+				out = append(out, fmt.Sprintf("union %s not in the merged introspection schema", x.Name))
+				continue
+			}
+			var a []string
+			for n := range x.Types {
+				a = append(a, n)
+			}
+			b := append([]string(nil), md.Possible...)
+			sort.Strings(a)
+			sort.Strings(b)
+			if fmt.Sprint(a) != fmt.Sprint(b) {
+				out = append(out, fmt.Sprintf("union %s: executable %v, introspection %v", x.Name, a, b))
+			}
+		case *graphql.Enum:
+			visitInput("output", x)
+		}
+	}
+	sort.Strings(out)
+	return out
+}
+
 // Classifier keys (stable; see FINDINGS.md).
 const (
 	classOrder       = "order-dependent-merge"
@@ -671,9 +794,9 @@ func TestCheck(t *testing.T) {
 		"list/non-null nestings, distributed over services following thunder's federation conventions (_federation field, Federation.<svc>_<Obj>(keys)); per-service views of shared enums/input objects may lack a value/optional field; " +
 		"versions = base view + 0-3 mutations (add/remove field, arg (optional/required), enum value, union member, input field; flip nullability of outputs/args/input fields at any nesting level; wrap/unwrap list; change scalar), unreachable types pruned. " +
 		"Generator B (real, 20%): schemabuilder services built from feature bitmasks (registered field funcs, arg structs, enum maps, union members, pointer vs value returns), JSON from introspection.ComputeSchemaJSON, real arg parsers. " +
-		"About 15% of generator-A sets also contain a type NAME with different KINDS on two sides (custom scalar vs enum/input/object/union across services, or across versions of one service) that no common field refers to; these must be rejected under every naming. About 9% of multi-service generator-A sets make one service (or one version of it) expose an object as a plain object that another service federates; thunder refuses such sets and the refusal must not depend on naming. " +
+		"About 15% of generator-A sets also contain a type NAME with different KINDS on two sides (custom scalar vs enum/input/object/union across services, or across versions of one service) that no common field refers to; these must be rejected under every naming. About 9% of multi-service generator-A sets make one service (or one version of it) expose an object as a plain object that another service federates; thunder refuses such sets and the refusal must not depend on naming. Drawn independently per generator-A set: 25% get an argument and an input field with 2-3 list levels of random per-level nullability (one level flipped in one version half of the time), 25% get the pair S / S! both as argument and as result of one field on two sides, 20% get a list argument / input field / result whose modifiers differ on two sides at two levels in opposite directions. " +
 		"Each set is evaluated under its base naming, the order-reversing naming, 2 random namings whose introspection lists (types, fields, args, inputFields, enumValues, possibleTypes) are shuffled per schema, and the base naming with shuffled lists (MergeIntrospectionSchemas + ConvertVersionedSchemas), compared with a set-semantics reference merge, checked for closure, " +
-		"and queries generated from the merged introspection only are executed through federation.Executor with fabricating clients; every recorded sub-query is PrepareQuery'd against every version's own schema of the receiving service. " +
+		"the executable schema of ConvertVersionedSchemas is compared structurally (every field, argument and input-field type at every nesting level, enums, unions) with the merged introspection schema, and queries generated from the merged introspection only are executed through federation.Executor with fabricating clients; every recorded sub-query is PrepareQuery'd against every version's own schema of the receiving service. " +
 		"Non-trivial = >=2 services AND >=1 multi-version service AND merge succeeded AND >=1 element on which the sides differ (dropped by intersection, contributed by one service only inside a shared field/type, or nullability disagreement). " +
 		"Distinct = (versions per service, kinds of differences with multiplicity capped at 2, generator, number of services reached by queries).")
 	run.Assume("synthetic version schemas validate arguments with a model of schemabuilder's arg parser (a field without arguments rejects any; otherwise unknown keys are ignored, declared values type-checked, enum values must be declared)")
@@ -914,10 +1037,27 @@ func runCase(run *vlib.Run, i, nSets, nQueries int) {
 			run.Count("convert:rejected_after_merge_ok", 1)
 		}
 
+		// ---- the two public entry points must describe the same gateway schema: the executable
+		// schema of ConvertVersionedSchemas vs the introspection result of MergeIntrospectionSchemas,
+		// compared structurally (every field / argument / input-field type at every nesting level) ----
+		execBad := false
+		if b.convOK {
+			if dis := execDisagreements(b.sw, mergedDef); len(dis) > 0 {
+				execBad = true
+				if len(dis) > 12 {
+					dis = dis[:12]
+				}
+				viol(run, i, "exec_schema", "", wit(map[string]interface{}{
+					"what":          "the executable gateway schema (ConvertVersionedSchemas) disagrees with the merged introspection schema (MergeIntrospectionSchemas) of the same set",
+					"disagreements": dis,
+				}))
+			}
+		}
+
 		// ---- oracle 5: end to end ----
 		// (a field-to-service map already shown wrong is not executed: the planner would act on it)
 		if b.convOK && len(model.Problems) == 0 && !fieldInfoBad {
-			servicesReached = endToEnd(run, i, set, base, b, mergedDef, model, abstract, nQueries, wit)
+			servicesReached = endToEnd(run, i, set, base, b, mergedDef, model, abstract, nQueries, execBad, wit)
 		}
 	}
 
@@ -942,7 +1082,7 @@ func runCase(run *vlib.Run, i, nSets, nQueries int) {
 	}
 }
 
-func endToEnd(run *vlib.Run, i int, set schemaSet, base naming, b *outcome, mergedDef *schemaDef, model *modelResult, abstract [][]*schemaDef, nQueries int, wit func(map[string]interface{}) map[string]interface{}) int {
+func endToEnd(run *vlib.Run, i int, set schemaSet, base naming, b *outcome, mergedDef *schemaDef, model *modelResult, abstract [][]*schemaDef, nQueries int, execBad bool, wit func(map[string]interface{}) map[string]interface{}) int {
 	counts := set.counts()
 	svcIdx := map[string]int{}
 	for s, n := range base.svc {
@@ -1043,6 +1183,17 @@ func endToEnd(run *vlib.Run, i int, set schemaSet, base naming, b *outcome, merg
 				root = selfSchema.Mutation
 			}
 			if err := graphql.PrepareQuery(ctx, root, q2.SelectionSet); err != nil {
+				if execBad {
+					// the query is valid against the merged introspection schema it was generated from (already
+					// cross-checked against the reference model); thunder's own executable schema of the same set
+					// refuses it, and the structural comparison above shows the two schemas differ
+					viol(run, i, "exec_schema_query", "", wit(map[string]interface{}{
+						"what":  "a query valid against the merged introspection schema is rejected by the executable gateway schema built from the same set",
+						"query": text, "prepare_error": err.Error(),
+					}))
+					return len(reached)
+				}
+				// executable and introspection-level schema agree structurally: the generator is at fault
 				run.Broken(fmt.Sprintf("case %d: generated query is not valid against the merged schema: %v: %s", i, err, text))
 				return len(reached)
 			}
